@@ -521,7 +521,7 @@ func decodeSyms(e string) []sym {
 
 func c05Alphabet() []sym {
 	return []sym{
-		{"LIC", "MIT"}, {"LIC", "GPL-2.0"}, {"LIC", "GPL-2.0-or-later"}, {"LIC", "Apache-2.0-only"}, {"LIC", "apache-2.0"},
+		{"LIC", "MIT"}, {"LIC", "GPL-2.0"}, {"LIC", "GPL-2.0-or-later"}, {"LIC", "Apache-2.0-only"}, {"LIC", "apache-2.0-or-later"},
 		{"EXC", "Classpath-exception-2.0"}, {"UNK", "FOO-1.0"},
 		{"LREF", "LicenseRef-x"}, {"DREF", "DocumentRef-d"}, {"COLON", ":"}, {"LP", "("}, {"RP", ")"},
 		{"AND", "AND"}, {"OR", "OR"}, {"WITH", "WITH"}, {"PLUS", "+"}, {"SPPLUS", " +"}, {"LOWOP", "and"},
@@ -566,7 +566,7 @@ func symString(s []sym) string {
 
 func init() {
 	props["C05"] = func() {
-		res.Rule = "every sequence of length <= 4 (thorough <= 5) over the property's alphabet (18 symbols: 5 kinds of license id, exception id, unknown id, LicenseRef, DocumentRef, ':', '(', ')', AND, OR, WITH, '+', ' +', lower-case operator), each in loose and in tight spacing, + random sequences of length 5-12 biased towards grammatical ones; reference = a recogniser written from the grammar in the property text. Non-trivial & distinct = distinct grammatical texts"
+		res.Rule = "every sequence of length <= 4 (thorough <= 5) over the property's alphabet (18 symbols: 5 kinds of license id (active, deprecated, listed -or-later, -only form, unlisted -or-later form in lower case), exception id, unknown id, LicenseRef, DocumentRef, ':', '(', ')', AND, OR, WITH, '+', ' +', lower-case operator), each in loose and in tight spacing, + random sequences of length 5-12 biased towards grammatical ones; reference = a recogniser written from the grammar in the property text. Non-trivial & distinct = distinct grammatical texts"
 		alpha := c05Alphabet()
 		maxLen := scale(4, 5)
 		seq := make([]sym, 0, maxLen)
